@@ -1,6 +1,7 @@
 //! Verification harness for saphyr-rs/saphyr: property-based testing and fuzzing machinery.
 pub mod drive;
 pub mod engine;
+pub mod fuzz;
 pub mod gen;
 pub mod known;
 pub mod model;
